@@ -261,6 +261,10 @@ func genStmt(r *Rand, a []KV, want bool, depth int, top bool) Stmt {
 			return Stmt{Op: "or", Kids: kids}
 		}
 	}
+	if want && top && r.Chance(0.08) {
+		// optional selector over a field that is not there: passes
+		return Stmt{Op: Pick(r, []string{"==", "<", "like"}), Sel: Pick(r, []string{".zz?", ".m.zz?", ".yy?"}), Val: ptr(vInt(int64(r.Range(0, 5)))), Pat: "a*"}
+	}
 	if !want && top && r.Chance(0.15) {
 		return Stmt{Op: Pick(r, []string{"==", "<", ">="}), Sel: Pick(r, []string{".zz", ".m.zz", ".zz.y"}), Val: ptr(vInt(int64(r.Range(0, 5))))}
 	}
@@ -471,6 +475,10 @@ func (g *wgen) bounds(nbf, exp **int64, tcSec int64) {
 	}
 	if r.Chance(0.3) {
 		v := tcSec - Pick(r, margins)
+		if r.Chance(0.15) {
+			// not-before at or around the unix epoch: long active
+			v = Pick(r, []int64{0, 1, -1, -2208988800}) - simEpochUnix
+		}
 		*nbf = &v
 	}
 }
@@ -986,6 +994,10 @@ func (g *wgen) deviateW(c *chain, tcSec int64) {
 	n := len(c.dlgs)
 	k := r.Intn(n + 1) // n = the invocation itself
 	m := Pick(r, []int64{0, 1, 60, 86400 * 400})
+	// sometimes an expiry at or around the unix epoch (0, 1, -1, 1900): "zero means absent" style slips
+	if r.Chance(0.2) {
+		m = tcSec + simEpochUnix - Pick(r, []int64{0, 1, -1, -2208988800, 946684800})
+	}
 	if k == n {
 		c.inv.Exp = ptr(tcSec - m)
 		g.note("W:expired@inv")
